@@ -39,9 +39,11 @@ pub struct Case {
 
 pub fn weight_strategy() -> impl Strategy<Value = u64> {
     prop_oneof![
-        6 => Just(1u64),
-        3 => 1u64..=20,
-        1 => 1u64..=(1u64 << 32),
+        12 => Just(1u64),
+        6 => 1u64..=20,
+        2 => 1u64..=(1u64 << 32),
+        // documented no-op
+        1 => Just(0u64),
     ]
 }
 
